@@ -1,6 +1,7 @@
 import Dmn.Model.Sexp
 import Dmn.Model.Calendar
 import Dmn.Model.Temporal
+import Dmn.Model.TemporalLocal
 
 /-! Driver handler for C15. Requests (all numbers are integers):
 
@@ -16,6 +17,13 @@ import Dmn.Model.Temporal
   components with the calendar's weekday (specification), and day of year, ISO week, ISO week year,
   Zeller weekday (specification of the calendar built-ins).
 * `(c15 durops kind a b)` — `+`, unary `-`, binary `-`, `=`, `<` on two durations.
+* `(c15 localoff <initial> (<instant> <offset> …) (DT …))` — for each written date and time the offset in
+  force under the rules given: `(byRules readAsUtc)` (`zoneOffsetByRules`, `localOffsetReadAsUtc`).
+* `(c15 conv V W)` — `date(V)`, `time(V)`, `date and time(V, W)`, `years and months duration(V, W)` on
+  temporal values (`bifDateOf`, `bifTimeOf`, `bifDateTimeOf`, `bifYmDuration`) and, for the last, the
+  specification: whole months between the (local) dates.
+* `(c15 arith V W o o)` — `V + W`, `W + V`, `V - W`, `W - V` on temporal values (`feelAdd`, `feelSub`);
+  values as the harness prints them: `(date y m d)`, `(time …)`, `(dt …)`, `(dtd n)`, `(ymd n)`.
 -/
 
 namespace Dmn.Driver.C15
@@ -81,6 +89,42 @@ def isIntegral (x : Dec) : Bool :=
 
 def decInt (x : Dec) : Int :=
   if x.exp ≥ 0 then x.coeff * (10 : Int) ^ x.exp.toNat else x.coeff / ((10 : Int) ^ (-x.exp).toNat)
+
+def zoneStr : Zone → String
+  | .utc => "utc"
+  | .localZ => "local"
+  | .offset o => s!"(offset {o})"
+  | .zone n => s!"(zone {Sexp.ofChars n})"
+
+def valueStr : Value → String
+  | .null => "null"
+  | .panic => "panic"
+  | .date d => s!"(date {d.y} {d.m} {d.d})"
+  | .time t => s!"(time {t.h} {t.mi} {t.s} {t.ns} {zoneStr t.z})"
+  | .dateTime x => s!"(dt {x.date.y} {x.date.m} {x.date.d} {x.time.h} {x.time.mi} {x.time.s} {x.time.ns} {zoneStr x.time.z})"
+  | .dtDur n => s!"(dtd {n})"
+  | .ymDur n => s!"(ymd {n})"
+
+def value? : Sexp → Option Value
+  | .list [.atom "date", y, m, d] => do
+    pure (.date ⟨← Sexp.int? y, ← Sexp.nat? m, ← Sexp.nat? d⟩)
+  | .list [.atom "time", h, mi, s, ns, z] => do
+    pure (.time ⟨← Sexp.nat? h, ← Sexp.nat? mi, ← Sexp.nat? s, ← Sexp.nat? ns, ← zone? z⟩)
+  | .list [.atom "dt", y, m, d, h, mi, s, ns, z] => do
+    pure (.dateTime ⟨⟨← Sexp.int? y, ← Sexp.nat? m, ← Sexp.nat? d⟩,
+      ⟨← Sexp.nat? h, ← Sexp.nat? mi, ← Sexp.nat? s, ← Sexp.nat? ns, ← zone? z⟩⟩)
+  | .list [.atom "dtd", n] => (Sexp.int? n).map .dtDur
+  | .list [.atom "ymd", n] => (Sexp.int? n).map .ymDur
+  | _ => none
+
+def pairs? : List Sexp → Option (List (Int × Int))
+  | [] => some []
+  | a :: b :: r => do
+    let a ← Sexp.int? a
+    let b ← Sexp.int? b
+    let r ← pairs? r
+    pure ((a, b) :: r)
+  | _ => none
 
 def handle (args : List Sexp) : String :=
   match args with
@@ -197,6 +241,32 @@ def handle (args : List Sexp) : String :=
       else
         s!"(({o (feelAddYmd x y)} {o (feelNegYmd x)} {o (feelSubYmd x y)} {b (decide (x = y))} {b (decide (x < y))}) {sp})"
     | _, _ => "(error bad-args)"
+  | [.atom "localoff", initial, .list trs, .list dts] =>
+    match Sexp.int? initial, pairs? trs, dts.mapM dt? with
+    | some i, some t, some ds =>
+      let z : ZoneRules := ⟨i, t⟩
+      let o := optStr (fun (n : Int) => toString n)
+      let one (x : DateTime) : String :=
+        s!"({o (oracleByRules z x)} {o (localOffsetReadAsUtc z x.date x.time.h x.time.mi x.time.s x.time.ns)})"
+      "(" ++ " ".intercalate (ds.map one) ++ ")"
+    | _, _, _ => "(error bad-args)"
+  | [.atom "conv", v, w] =>
+    match value? v, value? w with
+    | some v, some w =>
+      let dateOf? : Value → Option Date := fun x => match x with
+        | .date d => some d
+        | .dateTime dt => some dt.date
+        | _ => none
+      let sp := match dateOf? v, dateOf? w with
+        | some f, some t => s!"(ymd {wholeMonths f.y f.m f.d t.y t.m t.d})"
+        | _, _ => "null"
+      s!"(({valueStr (bifDateOf v)} {valueStr (bifTimeOf v)} {valueStr (bifDateTimeOf v w)} {valueStr (bifYmDuration v w)}) {sp})"
+    | _, _ => "(error bad-args)"
+  | [.atom "arith", v, w, ov, ow] =>
+    match value? v, value? w, oracle? ov, oracle? ow with
+    | some v, some w, some ov, some ow =>
+      s!"({valueStr (feelAdd v w)} {valueStr (feelAdd w v)} {valueStr (feelSub v w ov ow)} {valueStr (feelSub w v ow ov)})"
+    | _, _, _, _ => "(error bad-args)"
   | _ => "(error bad-request)"
 
 end Dmn.Driver.C15
